@@ -91,13 +91,20 @@ XPruned == << [cuts |-> << Q(1, 2) >>, degs |-> <<3, 7>>],
               [cuts |-> << Q(3, 10), QI(3) >>, degs |-> <<3, 7, 5>>],
               [cuts |-> << Q(1, 5), QI(1) >>, degs |-> <<5, 3, 7>>],
               [cuts |-> << QI(1) >>, degs |-> <<3, 9>>],
-              [cuts |-> << QI(2) >>, degs |-> <<7, 3>>] >>
+              [cuts |-> << QI(1) >>, degs |-> <<7, 3>>] >>
 \* band limit: a shell of degree d keeps the channels l' <= d \div 2 and integrates polynomials of degree <= d
 \* exactly; a density with content up to l is projected exactly on every kept channel iff l + d \div 2 <= d,
 \* and loses nothing iff l <= d \div 2
 ShellExact(d_, l_) == l_ <= d_ \div 2 /\ l_ + d_ \div 2 <= d_
 RECURSIVE SeqMax(_)
 SeqMax(s_) == IF Len(s_) = 1 THEN s_[1] ELSE Max2(s_[1], SeqMax(Tail(s_)))
+\* the pruning must matter: some sector of less than the maximal degree reaches into the region where the l > 0
+\* part of the density lives (it starts at 0, or at a radius c with alpha c^2 <= 3) - otherwise a pruned grid is
+\* indistinguishable from a uniform one (a cut at r = 2 with alpha = 11/4 was: e^-11)
+PrunedBites(c_) == \E j_ \in 1..Len(c_.pruned.degs) :
+    /\ c_.pruned.degs[j_] < SeqMax(c_.pruned.degs)
+    /\ (j_ = 1 \/ \A k_ \in 1..Len(c_.terms) :
+            c_.terms[k_].l > 0 => QLe(QMul(c_.terms[k_].alpha, QMul(c_.pruned.cuts[j_ - 1], c_.pruned.cuts[j_ - 1])), QI(3)))
 ShellLaw == /\ \A d_ \in {3, 5, 7, 9, 11} : ShellExact(d_, d_ \div 2) /\ ~ShellExact(d_, d_ \div 2 + 1)
             /\ ~ShellExact(3, 2) /\ ShellExact(5, 2) /\ ~ShellExact(5, 3) /\ ShellExact(7, 3)
 
@@ -265,7 +272,8 @@ XCaseAdmissible(c_) ==
           /\ Len(c_.pruned.degs) = Len(c_.pruned.cuts) + 1
           /\ \A j_ \in 1..Len(c_.pruned.degs) : \A k_ \in 1..Len(c_.terms) : ShellExact(c_.pruned.degs[j_], c_.terms[k_].l)
           /\ \A j_ \in 1..(Len(c_.pruned.cuts) - 1) : QLt(c_.pruned.cuts[j_], c_.pruned.cuts[j_ + 1])
-          /\ SeqMax(c_.pruned.degs) \div 2 >= 2)
+          /\ SeqMax(c_.pruned.degs) \div 2 >= 2
+          /\ PrunedBites(c_))
     /\ (c_.kind = "x_hetmol" => \E i_, j_ \in 1..Len(c_.grids) : c_.grids[i_].n # c_.grids[j_].n \/ c_.grids[i_].map # c_.grids[j_].map)
     /\ c_.lin[2] # QZero
     /\ (c_.kind # "x_law" => \A k_ \in 1..Len(c_.terms) : c_.terms[k_].l > 0 => XUnbounded(c_.grids[1]) /\ c_.rcut = 0)
